@@ -908,7 +908,7 @@ Proof.
   destruct (qhead_mono kc _ _ _ E) as [Q B]. unfold cap in *. rewrite B. lia.
 Qed.
 
-(* ---- the current source: stop() with a region open (finding F2), and retire() racing with stop() ---- *)
+(* ---- stop() with a region open under the old loop (finding F2, fixed), and retire() racing with stop() (current source) ---- *)
 Definition f2_progs : list (list op) := [[OStart; ORetire; OStop]; [OLock; OUnlock]].
 Definition f2_sched : list nat := [1;1; 0;0;0;0;0;0; 2;2;2;2;2;2;2;2; 0; 1]%nat.
 Definition race_progs : list (list op) := [[OStart; OStop]; [ORetire]].
@@ -923,15 +923,23 @@ Proof.
   destruct i2 as [|[|[|[|]]]]; cbn in H4; try discriminate; auto.
 Qed.
 
-Theorem gc_all_before_stop_refuted :
-  exists bits progs s, single_stop progs /\ Reach src_kc bits progs s /\ gver s < STOP_EPOCH /\ all_done s = true /\ ~ stop_complete s.
+(* regression witness of finding F2 (fixed in /repo by e0cd24e): with the loop as it was, `while (running)`, stop() returns
+   with an uncalled reclaimer when a region is open *)
+Theorem gc_as_was_loop_refuted :
+  exists bits progs s, single_stop progs /\ Reach orig_kc bits progs s /\ gver s < STOP_EPOCH /\ all_done s = true /\ ~ stop_complete s.
 Proof.
-  exists 1%nat, f2_progs, (run st step (init 1 f2_progs) f2_sched).
+  exists 1%nat, f2_progs, (run st step_orig (init 1 f2_progs) f2_sched).
   split; [exact f2_single_stop|]. split; [exists f2_sched; reflexivity|]. split; [vm_compute; reflexivity|].
   split; [vm_compute; reflexivity|]. intro C. unfold stop_complete in C. vm_compute in C.
   specialize (C 0%nat _ 1%nat 0%nat eq_refl (or_intror (or_intror (or_introl eq_refl))) 0%nat _ (le_n 1) eq_refl).
   apply C. intros [|j] y Hj Hy; [injection Hy as <-; reflexivity | lia].
 Qed.
+
+(* the current source has the repaired form: this proof breaks if the loop condition is changed back *)
+Lemma src_kc_is_fixed : forall r i n, src_kc r i n = r || Nat.ltb i n.
+Proof. destruct src_kc_form as [H|H]; [specialize (H false 0%nat 1%nat); vm_compute in H; discriminate | exact H]. Qed.
+Theorem gc_all_before_stop_src : forall bits progs s, Reach src_kc bits progs s -> stop_complete s.
+Proof. exact (gc_all_before_stop src_kc src_kc_is_fixed). Qed.
 
 Theorem gc_retire_racing_stop_refuted :
   exists bits progs s x, no_regions progs /\ Reach src_kc bits progs s /\ all_done s = true /\ coll_quiet s = true /\
